@@ -78,6 +78,9 @@ class MessageInterface:
         byte_message = b''
         while True:
             c = self.connection_socket.recv(1)
+            if c == b'':
+                # recv() returns an empty bytes object at end-of-stream.
+                raise ConnectionError('Connection is closed by the peer.')
             if c == b'\r':
                 s = self.connection_socket.recv(1)
                 if s != b'\n':
